@@ -621,7 +621,7 @@ func statRaceCase(c *engine.Ctx, kind string, mf mechanisms.MechanismFactory, di
 	case r.err != nil:
 		c.Outcome(entry + ": error returned")
 	default:
-		c.Outcome(entry + ": applied")
+		c.Outcome(entry + ": handled without a panic, no error reported")
 	}
 
 	if e := fx.probe("/base", "base"); e != nil {
@@ -785,7 +785,7 @@ func replayRuleSet(c *engine.Ctx, raw json.RawMessage) {
 		return
 	}
 
-	dir, err := os.MkdirTemp(filepath.Join(engine.VerifRoot, ".work"), "c19-replay-")
+	dir, err := scratchDir("c19-replay-")
 	if err != nil {
 		c.Infra("%v", err)
 
